@@ -305,6 +305,20 @@ def real_behaviour(b, rng, n_objects=12, n_steps=60):
                 d.call(o, 'matrix')
                 d.call(o, 'jump_diffusivity', 3)
                 d.call(o, 'counter')
+            # directed: the same memoised method with different arguments, interleaved -- an answer for one set of arguments must not
+            # disturb the answer for another (thresholded graphs vs the complete graph; activation energies read the complete graph)
+            try:
+                g_all = d.objs[o].to_graph()
+                e_acts = sorted(float(dd['e_act']) for _, _, dd in g_all.edges(data=True))
+                del g_all
+            except Exception:       # noqa
+                e_acts = []
+            if len(e_acts) >= 2:
+                mid = (e_acts[0] + e_acts[-1]) / 2 if e_acts[0] < e_acts[-1] else e_acts[0] - 1e-3
+                for kwg in ({'max_e_act': mid}, {}, {'min_e_act': mid}, {}, {'min_e_act': e_acts[0] - 1.0, 'max_e_act': e_acts[0] - 0.5}, {}):
+                    d.call(o, 'to_graph', **kwg)
+                d.call(o, 'rates', 2)
+                d.call(o, 'to_graph')
     for _ in range(n_steps):
         live = list(d.objs)
         r = rng.random()
